@@ -1,5 +1,5 @@
 (* C05 — fields libtins derives are correct on the wire: the checksums. *)
-From LT Require Import Base.Prelude Base.CInt Model.Checksum Proofs.OnesCompl.
+From LT Require Import Base.Prelude Base.CInt Gen.CrcTable Model.Checksum Proofs.OnesCompl Proofs.Crc.
 Local Open Scope Z_scope.
 
 (* libtins sums native little-endian words; that is the RFC 1071 big-endian sum up to the byte swap *)
@@ -32,6 +32,25 @@ Theorem C05_pseudo_header_checksum_verifies : forall udp ph buf off, bytes_ok ph
   fold16 (sum_be (ph ++ put_word buf off (l4_check_word udp (sum_le ph) buf))) = 65535.
 Proof. exact l4_checksum_verifies. Qed.
 Print Assumptions C05_pseudo_header_checksum_verifies.
+
+(* The CRC libtins derives (the 802.11 FCS RadioTap appends; the WEP/TKIP ICV): Utils::crc32 starts from 0, applies no
+   final complement and indexes a 16-entry table (regenerated from the source on every run, Gen/CrcTable.v) that is not
+   the textbook nibble table.  For EVERY byte string its result is the IEEE 802.3 CRC-32 as the standard defines it:
+   bit-serial division by the reflected polynomial 0xEDB88320, register preset to all ones, result complemented --
+   so an independent decoder's FCS/ICV check agrees with libtins on every frame, not only on "123456789". *)
+Theorem C05_crc32_is_ieee_802_3_crc32 : forall b, bytes_ok b -> crc32 b = crc32_bitwise b.
+Proof. exact crc32_is_bitwise_ieee. Qed.
+Print Assumptions C05_crc32_is_ieee_802_3_crc32.
+
+(* ... and the table-driven form with the textbook table (entry i = i pushed through four bit steps), no byte-range premise *)
+Theorem C05_crc32_is_table_driven_ieee_crc32 : forall b, crc32 b = crc32_ieee b.
+Proof. exact crc32_is_ieee. Qed.
+Print Assumptions C05_crc32_is_table_driven_ieee_crc32.
+
+Example C05_crc_nonvacuous :
+  (crc32_bitwise [49;50;51;52;53;54;55;56;57] = 3421780262) /\ (crc32_bitwise nil = 0) /\
+  (nth 8%nat std_table 0 = crc_poly) /\ (nth 7%nat crc_table 0 = Z.lxor crc_poly 4026531840).
+Proof. vm_compute. repeat split. Qed.
 
 (* non-vacuity + labelled TESTS (not proofs): an IPv4 header, and the CRC-32 check value of "123456789" *)
 Example C05_nonvacuous :
